@@ -13,6 +13,7 @@ UNIVERSES = {
     "struct5": ("MC_DocGen.tla", "DocGen_struct5.cfg", None, None),
     "items5": ("MC_DocGen.tla", "DocGen_items5.cfg", None, None),
     "empty5": ("MC_DocGen.tla", "DocGen_empty5.cfg", None, None),
+    "emptyq5": ("MC_DocGen.tla", "DocGen_emptyq5.cfg", None, None),
     "items5q": ("MC_DocGen.tla", "DocGen_items5q.cfg", None, None),
     "heads4": ("MC_DocGen.tla", "DocGen_heads4.cfg", None, None),
     "heads5": ("MC_DocGen.tla", "DocGen_heads5.cfg", None, None),
@@ -24,14 +25,14 @@ UNIVERSES = {
 }
 
 PLAN = {
-    ("C01", "quick"): ["full3", "struct5", "heads4", "inline", "lists", "items5", "empty5"],
-    ("C02", "quick"): ["full3", "struct5", "heads4", "inline", "lists", "items5", "empty5"],
-    ("C07", "quick"): ["full3", "struct5", "heads5", "lists", "inline1", "items5", "empty5"],
-    ("C03", "quick"): ["full3", "struct4", "heads4", "inline1", "lists", "empty5"],
-    ("C01", "thorough"): ["full4", "struct5", "heads5", "inline", "lists", "deep", "items5", "empty5", "items5q"],
-    ("C02", "thorough"): ["full4", "struct5", "heads5", "inline", "lists", "deep", "items5", "empty5", "items5q"],
-    ("C07", "thorough"): ["full4", "struct5", "heads6", "inline", "lists", "deep", "items5", "empty5", "items5q"],
-    ("C03", "thorough"): ["full4", "struct5", "heads5", "inline", "lists", "deep", "empty5", "items5"],
+    ("C01", "quick"): ["full3", "struct5", "heads4", "inline", "lists", "items5", "empty5", "emptyq5"],
+    ("C02", "quick"): ["full3", "struct5", "heads4", "inline", "lists", "items5", "empty5", "emptyq5"],
+    ("C07", "quick"): ["full3", "struct5", "heads5", "lists", "inline1", "items5", "empty5", "emptyq5"],
+    ("C03", "quick"): ["full3", "struct4", "heads4", "inline1", "lists", "empty5", "emptyq5"],
+    ("C01", "thorough"): ["full4", "struct5", "heads5", "inline", "lists", "deep", "items5", "empty5", "emptyq5", "items5q"],
+    ("C02", "thorough"): ["full4", "struct5", "heads5", "inline", "lists", "deep", "items5", "empty5", "emptyq5", "items5q"],
+    ("C07", "thorough"): ["full4", "struct5", "heads6", "inline", "lists", "deep", "items5", "empty5", "emptyq5", "items5q"],
+    ("C03", "thorough"): ["full4", "struct5", "heads5", "inline", "lists", "deep", "empty5", "emptyq5", "items5"],
 }
 
 
